@@ -497,7 +497,48 @@ def r6_units(ctx):
     ctx.ok('text offsets in the props module inspected: %d' % n, None)
 
 
+def r8_stale_handle_is_loud(ctx):
+    """a typed handle whose property meanwhile holds a value of another type fails loudly: in the props module the result of every
+    `downcast_ref` / `downcast_mut` on a stored value is forced (`expect` / `unwrap`) or only asked for its presence (`is_some` /
+    `is_none`) — never handed on as an Option (`and_then(downcast_ref)` reads a value of the wrong type as "not set")"""
+    ctx.set_rule('C17.R8')
+    P = ctx.P
+    n = 0
+    for g in P.fn_list:
+        if g.kind == 'promoted' or not g.key.startswith((PR, '<' + PR)):
+            continue
+        for s_ in g.calls():
+            if s_.name.split('::')[-1] not in ('downcast_ref', 'downcast_mut') or 'Any' not in s_.name and 'any::' not in s_.name:
+                continue
+            n += 1
+            d = s_.dest
+            forced = False
+            if not d['pr']:
+                for c in g.calls():
+                    if any(a.get('k') in ('move', 'copy') and a['p']['l'] == d['l'] and not a['p']['pr'] for a in c.args) and \
+                            c.name.split('::')[-1] in ('expect', 'unwrap', 'is_some', 'is_none', 'unwrap_unchecked'):
+                        forced = True
+                    # `let x = v.downcast_ref(); &x ...`: presence asked through a reference
+                for b in sorted(g.reachable()):
+                    for st in g.stmts(b):
+                        if st['k'] == 'assign' and st['r']['k'] == 'ref' and st['r']['p']['l'] == d['l'] and not st['r']['p']['pr']:
+                            tmp = st['p']['l']
+                            if any(any(a.get('k') in ('move', 'copy') and a['p']['l'] == tmp for a in c.args) and c.name.split('::')[-1] in ('is_some', 'is_none') for c in g.calls()):
+                                forced = True
+            ctx.check(forced, 'downcast-forced:%s' % (g.root or g.key).split('::')[-1], 'a failed downcast of a stored property value is an error (panic), not an absent value', s_.where(), s_.name)
+    ctx.floor('downcasts of stored property values', n, 3)
+
+
+def r7_builder_keeps_cfgs(ctx):
+    """the configurations included so far survive every other builder call: a by-value method of SimBuilder returns the builder it was
+    given (or delegates to one that does), never a builder put together anew from parts (shared with C04.R6)"""
+    from .C04 import r6_builder_keeps_seed
+    r6_builder_keeps_seed(ctx, rule='C17.R7', B='des::net::runtime::SimBuilder', floor_n=2)
+
+
 def run(ctx):
+    r7_builder_keeps_cfgs(ctx)
+    r8_stale_handle_is_loud(ctx)
     r6_units(ctx)
     r5_compartments_merged(ctx)
     r1_segment_aligned(ctx)
